@@ -49,6 +49,9 @@ TNext ==
                 \cup (IF InvalidFrameDisconnects' THEN {} ELSE {"C13.InvalidFrameDisconnects"})
                 \cup (IF DisconnectOnce' THEN {} ELSE {"C13.DisconnectOnce"})
      IN (bad # {}) => PrintT(<<"VIOL", tid, l, <<Steps(tid)[l].a>>, bad>>)
+  \* "received as the same sequence": when every byte of an undamaged stream has been handed over, every message is there
+  /\ (l = Len(Steps(tid)) /\ FirstCorrupt = NF + 1 /\ wbuf' = <<>> /\ wire' = <<>> /\ (Len(delivered') # NF \/ rstate' # "C"))
+        => PrintT(<<"VIOL", tid, l, <<Steps(tid)[l].a>>, {"C13.EverythingDelivered"}>>)
   /\ (l = Len(Steps(tid))) => PrintT(<<"DONE", tid, 0, 0>>)
 TSpec == TInit /\ [][TNext]_tvars
 =============================================================================
